@@ -63,7 +63,7 @@ def main():
         sid, patch, prop, d = it
         checks = PROPS if all_checks else [prop]
         r = run_one(patch, checks)
-        if d:
+        if d and "--no-write" not in sys.argv:
             mp = os.path.join(d, "meta.json")
             meta = json.load(open(mp))
             meta["checks"] = dict(meta.get("checks", {}), **r) if not all_checks else r
@@ -93,7 +93,7 @@ def main():
         lines.append("|---|---|---|")
         for sid, (prop, r) in sorted(rows.items()):
             lines.append("| %s | %s | %s |" % (sid, prop, r[prop]["verdict"]))
-    out = os.path.join(sd, "MATRIX.md" if not args else "MATRIX.partial.md")
+    out = os.path.join(sd, "MATRIX.md" if not args and "--no-write" not in sys.argv else "MATRIX.partial.md")
     with open(out, "w") as f:
         f.write("\n".join(lines) + "\n")
     missed = [sid for sid, (prop, r) in rows.items() if r.get(prop, {}).get("verdict") != "KILLED"]
